@@ -37,7 +37,7 @@ ASSUMPTIONS = [
     'before the member name; "{short a;" is noted in DESIGN.md as an observation, not asserted)',
     'the structure name in a typedef is all upper or all lower case (the spellings yanny.type() documents); arbitrary case on data rows',
     'a table with a char[] column has >=1 row and that column >=1 non-empty value (sizing to the longest value presupposes one)',
-    'keywords are identifiers distinct (case-insensitively) from structure names; pair values have no #, no {{}}-like run, no leading/trailing blanks',
+    'keywords are identifiers distinct (case-insensitively) from structure names; pair values have no # outside double quotes, no {{}}-like run, no leading/trailing blanks',
     'floats are finite decimal texts; the expected value is float(text) converted to the declared width',
 ]
 
@@ -163,7 +163,10 @@ def document(draw):
     pval = st.one_of(
         st.text(alphabet='abXY09 \t;{}\',.:=-_/+*()[]<>|@!?~^&%$"', max_size=12).map(lambda s: s.strip()).filter(
             lambda s: not Y.DOUBLE_BRACE.search(s) and not s.endswith('\\') and s.count('"') % 2 == 0),
-        st.sampled_from(['', '54579', 'beta gamma delta', '"quoted value"', '{1 2 3}', 'a\tb']))
+        st.sampled_from(['', '54579', 'beta gamma delta', '"quoted value"', '{1 2 3}', 'a\tb']),
+        # a comment mark inside double quotes is part of the value (round 9)
+        st.sampled_from(['"r #2 (red)"', 'x "#1" y "#2"', 'filter "#"', '"# not a comment"']),
+        st.text(alphabet='ab #;{}\t.', min_size=1, max_size=8).filter(lambda t: '#' in t and not Y.DOUBLE_BRACE.search(t)).map(lambda t: 'v "%s"' % t))
     pairs = [[k, draw(pval)] for k in keys]
     return dict(enums=[[k, v] for k, v in enums.items()], tables=tables, pairs=pairs)
 
